@@ -36,8 +36,15 @@ NoneTok == 1000
 TokShort == 1001  TokLong == 1002  TokNonDigit == 1003  TokEmpty == 1004
 Malformed == {TokShort, TokLong, TokNonDigit, TokEmpty}
 
-MatchResult(Code, p, base, last, tok, t, w, skew) ==
-    IF tok \in Malformed THEN <<"Malformed">>
+\* text -> token: blanks, '-' and '=' are ignored; then exactly `digits` decimal digits
+IsBlank(c) == c \in {32, 9, 10, 11, 12, 13, 45, 61}
+NormToken(txt, digits) ==
+    LET s == SelectSeq(txt, LAMBDA c : ~IsBlank(c)) IN
+    IF Len(s) # digits \/ \E i \in 1..Len(s) : s[i] \notin 48..57 THEN <<"Malformed">>
+    ELSE <<"ok", FoldLeft(LAMBDA acc, c : acc * 10 + (c - 48), 0, s)>>
+
+MatchResult(Code, p, base, last, malformed, tok, t, w, skew) ==
+    IF malformed THEN <<"Malformed">>
     ELSE LET ct == t + skew
              lo == Max2(Max2(last, (ct - w) \div p), base)
              hi == (ct + w) \div p
